@@ -342,10 +342,21 @@ ChanCap   == \A s \in Shards : Len(chan[s]) <= 1
 
 Monotone == [][\A s \in Shards : cur'[s] >= cur[s] /\ send'[s] >= send[s]]_vars
 
+(* which property-level invariants the current state breaks (export configurations run without INVARIANTS so
+   that a model instantiated with constants read from the code is explored completely; a behaviour ending in
+   a state that breaks the property is tagged and replayed on the real code first) *)
+Broken == (IF ExactlyOnce THEN {} ELSE {"ExactlyOnce"}) \cup (IF AllFlushed THEN {} ELSE {"AllFlushed"})
+          \cup (IF NotEarly THEN {} ELSE {"NotEarly"}) \cup (IF RingOK THEN {} ELSE {"RingOK"})
+          \cup (IF Rounded THEN {} ELSE {"Rounded"}) \cup (IF Placement THEN {} ELSE {"Placement"})
+          \cup (IF DropsJustified THEN {} ELSE {"DropsJustified"}) \cup (IF OutIncreasing THEN {} ELSE {"OutIncreasing"})
+          \cup (IF SendBound THEN {} ELSE {"SendBound"}) \cup (IF ChanCap THEN {} ELSE {"ChanCap"})
+PrintBeh == /\ PrintT(<<"BEH", ToJson(hist')>>)
+            /\ (Broken' = {} \/ PrintT(<<"BAD", ToJson([broken |-> Broken', beh |-> hist'])>>))
+
 (* the instance, for the driver (which builds its agents and metrics from it) *)
 ASSUME PrintT(<<"CFG", ToJson([qlen |-> QLen, future |-> FutureSlots, spread |-> Spread, nshards |-> NShards,
                                t0 |-> T0, timing_shard |-> TimingShard, metrics |-> Metrics])>>)
 
-Export    == PrintT(<<"BEH", ToJson(hist')>>)
-ExportEnd == IF Len(hist') >= MaxOps THEN PrintT(<<"BEH", ToJson(hist')>>) ELSE TRUE
+Export    == PrintBeh
+ExportEnd == IF Len(hist') >= MaxOps THEN PrintBeh ELSE TRUE
 ===============================================================================
